@@ -75,25 +75,46 @@ func c15Scalar(t *rapid.T, label string) (*big.Int, string) {
 	return v.Mod(v, sm2gen.N), cls
 }
 
+// c15Operand draws a curve point: a multiple of G (scalar classes above) or a special point with a tiny x coordinate
+// (x = 0, 1, 2, ... lifted by a square root; includes the points (0, ±sqrt(b))), possibly negated.
+func c15Operand(t *rapid.T, label string) (sm2ref.Point, string) {
+	if gen.Int(t, label+".special", 0, 4) == 0 {
+		x := big.NewInt(int64(gen.Int(t, label+".tinyx", 0, 40)))
+		if gen.Bool(t, label+".x0") {
+			x.SetInt64(0)
+		}
+		for {
+			if pt, ok := sm2ref.LiftX(x); ok {
+				if gen.Bool(t, label+".neg") {
+					pt = sm2ref.Neg(pt)
+				}
+				return pt, fmt.Sprintf("tinyx(x=0:%v)", x.Sign() == 0)
+			}
+			x.Add(x, big.NewInt(1))
+		}
+	}
+	a, cls := c15Scalar(t, label)
+	return sm2ref.Mul(a, sm2ref.G), cls
+}
+
 func c15Raw(p *SM2Point) [3][4]uint64 { return [3][4]uint64{*p.x.GetRaw(), *p.y.GetRaw(), *p.z.GetRaw()} }
 
 func TestVerif_C15_GroupLaw(t *testing.T) {
 	rec := stats.Get("C15", "grouplaw")
-	rec.Rule("rapid: operands [a]G, [b]G with a,b from {0,1,2,3,n-1,n-2,small,uniform} and relation {free, equal, opposite}; each operand normalised or scaled by a random non-zero field element (another projective representative; also for infinity); aliasing pattern {fresh receiver, recv=p1, recv=p2, p1=p2 same pointer, all the same}; operations Add, Double, Negate, Select(cond 0/1), Set. Oracle: result encodes [a+b mod n]G / [2a]G / [-a]G by sm2ref; result satisfies the projective curve equation or is (0:y!=0:0); non-receiver operands unchanged. Non-trivial: exceptional pair (equal, opposite, an operand at infinity) or aliasing or a scaled representative; distinct by (a,b,scales,alias,op).")
+	rec.Rule("rapid: operands [a]G, [b]G with a,b from {0,1,2,3,n-1,n-2,small,uniform}, or special points with tiny x (x = 0,1,2,.. lifted by square root, incl. (0, ±sqrt b)), relation {free, equal, opposite}; each operand normalised or scaled by a random non-zero field element (another projective representative; also for infinity); aliasing pattern {fresh receiver, recv=p1, recv=p2, p1=p2 same pointer, all the same}; operations Add, Double, Negate, Select(cond 0/1), Set. Oracle: result encodes [a+b mod n]G / [2a]G / [-a]G by sm2ref; result satisfies the projective curve equation or is (0:y!=0:0); non-receiver operands unchanged. Non-trivial: exceptional pair (equal, opposite, an operand at infinity) or aliasing or a scaled representative; distinct by (a,b,scales,alias,op).")
 	t.Cleanup(stats.FlushAll)
 	rapid.Check(t, func(t *rapid.T) {
-		a, acls := c15Scalar(t, "a")
-		b, bcls := c15Scalar(t, "b")
+		PA, acls := c15Operand(t, "a")
+		PB, bcls := c15Operand(t, "b")
 		rel := gen.Pick(t, "rel", "free", "free", "equal", "opposite")
 		switch rel {
 		case "equal":
-			b = new(big.Int).Set(a)
+			PB = PA
 		case "opposite":
-			b = new(big.Int).Sub(sm2gen.N, a)
-			b.Mod(b, sm2gen.N)
+			PB = sm2ref.Neg(PA)
 		}
+		a, b := sm2ref.Encode(PA), sm2ref.Encode(PB) // operands identified by their encodings
 		r := gen.Rand(t, "seed")
-		PA, PB := sm2ref.Mul(a, sm2ref.G), sm2ref.Mul(b, sm2ref.G)
 		p1, p2 := c14FromRef(t, PA), c14FromRef(t, PB)
 		sc1, sc2 := gen.Bool(t, "scale1"), gen.Bool(t, "scale2")
 		if sc1 {
@@ -141,17 +162,17 @@ func TestVerif_C15_GroupLaw(t *testing.T) {
 				want = PA
 			}
 		}); p != nil {
-			vt.Fail(t, rec, "C15:"+op+":panic", "%s panicked: %v (a=%x b=%x alias=%s)", op, p, a, b, alias)
+			vt.Fail(t, rec, "C15:"+op+":panic", "%s panicked: %v (P1=%x P2=%x alias=%s)", op, p, a, b, alias)
 			return
 		}
 		exceptional := PA.Inf || PB.Inf || PA.Equal(PB) || PA.Equal(sm2ref.Neg(PB))
 		nt := exceptional || alias != "fresh" || sc1 || sc2
-		rec.Case(stats.Hash(a.Bytes(), b.Bytes(), []byte(op+alias), []byte{byte(cond)}, []byte(fmt.Sprint(raw1, raw2))), nt,
+		rec.Case(stats.Hash(a, b, []byte(op+alias), []byte{byte(cond)}, []byte(fmt.Sprint(raw1, raw2))), nt,
 			"op:"+op, "alias:"+alias, "rel:"+rel, fmt.Sprintf("exceptional:%v", exceptional), fmt.Sprintf("scaled:%v", sc1 || sc2), "a:"+acls, "b:"+bcls)
 		if rec.WantSample(op + alias) {
-			rec.Sample(op+alias, map[string]interface{}{"op": op, "a": fmt.Sprintf("%x", a), "b": fmt.Sprintf("%x", b), "alias": alias, "scaled": []bool{sc1, sc2}, "p1_raw": fmt.Sprintf("%x", raw1)})
+			rec.Sample(op+alias, map[string]interface{}{"op": op, "P1": fmt.Sprintf("%x", a), "P2": fmt.Sprintf("%x", b), "alias": alias, "scaled": []bool{sc1, sc2}, "p1_raw": fmt.Sprintf("%x", raw1)})
 		}
-		detail := fmt.Sprintf("op=%s a=%x b=%x alias=%s scaled=%v,%v cond=%d", op, a, b, alias, sc1, sc2, cond)
+		detail := fmt.Sprintf("op=%s P1=%x P2=%x alias=%s scaled=%v,%v cond=%d", op, a, b, alias, sc1, sc2, cond)
 		if gb := recv.Bytes(); !bytes.Equal(gb, sm2ref.Encode(want)) {
 			vt.Fail(t, rec, "C15:"+op+":wrong", "%s gives the wrong group element\n%s\n got %x\nwant %x", op, detail, gb, sm2ref.Encode(want))
 			return
